@@ -72,6 +72,99 @@ func fmtBP(bp []model.BookletPage) string {
 	return "ok:" + strings.Join(ss, ",")
 }
 
+// selMap returns k selected pages (ascending) and a set of deselected pages: the real selection
+// map stores a deselected page n as m[n] = false (api.PagesForPageSelection), it does not delete it.
+func selMap(r *vh.Run, k int, mode int) (pages, desel []int) {
+	switch mode % 5 {
+	case 0: // 1..k selected, the pages after the last one deselected
+		pages = selPages(r, k, 0)
+		if k%2 == 1 {
+			desel = []int{k + 1, k + 2}
+		}
+	case 1: // odd pages selected, every even page deselected
+		pages = selPages(r, k, 1)
+		for i := 1; i <= k; i++ {
+			desel = append(desel, 2*i)
+		}
+	case 2: // random gaps, each gap page deselected or absent
+		pages = selPages(r, k, 2)
+		in := map[int]bool{}
+		for _, p := range pages {
+			in[p] = true
+		}
+		for p := 1; p <= pages[len(pages)-1]+2; p++ {
+			if !in[p] && r.Rand.Intn(2) == 0 {
+				desel = append(desel, p)
+			}
+		}
+	case 3: // first page, a run in the middle and the last page deselected
+		u := k + 5
+		run := 2 + r.Rand.Intn(k+1)
+		out := map[int]bool{1: true, run: true, run + 1: true, run + 2: true, u: true}
+		for p := 1; p <= u; p++ {
+			if out[p] {
+				desel = append(desel, p)
+			} else {
+				pages = append(pages, p)
+			}
+		}
+		pages = pages[:k]
+		if len(pages) > 0 {
+			// keep the map shaped like "1-u,!...": drop what lies beyond the k-th selected page into the deselected set
+			last := pages[len(pages)-1]
+			nd := desel[:0:0]
+			for _, p := range desel {
+				nd = append(nd, p)
+			}
+			for p := last + 1; p <= u; p++ {
+				if !out[p] {
+					nd = append(nd, p)
+				}
+			}
+			desel = nd
+		}
+	default: // a random subset of 1..u selected, all others deselected (the map api.PagesForPageSelection builds for "1-u,!a,!b-c")
+		u := k + r.Rand.Intn(k+3)
+		perm := r.Rand.Perm(u)
+		in := map[int]bool{}
+		for _, j := range perm[:k] {
+			in[j+1] = true
+		}
+		for p := 1; p <= u; p++ {
+			if in[p] {
+				pages = append(pages, p)
+			} else {
+				desel = append(desel, p)
+			}
+		}
+	}
+	return pages, desel
+}
+
+func fullSet(pages, desel []int) types.IntSet {
+	m := types.IntSet{}
+	for _, p := range pages {
+		m[p] = true
+	}
+	for _, p := range desel {
+		m[p] = false
+	}
+	return m
+}
+
+// mapArg encodes a selection map for the model, in the (arbitrary) iteration order of the Go map.
+func mapArg(m types.IntSet) string {
+	ss := make([]string, 0, len(m))
+	for k, v := range m {
+		b := "0"
+		if v {
+			b = "1"
+		}
+		ss = append(ss, vh.Int(int64(k))+":"+b)
+	}
+	return strings.Join(ss, ",")
+}
+
 func intSet(pages []int) types.IntSet {
 	m := types.IntSet{}
 	for _, p := range pages {
@@ -81,13 +174,13 @@ func intSet(pages []int) types.IntSet {
 }
 
 // ordering calls the real getBookletOrdering, recovering panics.
-func ordering(pages []int, nup *model.NUp) (bp []model.BookletPage, panicked string) {
+func ordering(m types.IntSet, nup *model.NUp) (bp []model.BookletPage, panicked string) {
 	defer func() {
 		if x := recover(); x != nil {
 			panicked = fmt.Sprint(x)
 		}
 	}()
-	return pdfcpu.VerifC34GetBookletOrdering(intSet(pages), nup), ""
+	return pdfcpu.VerifC34GetBookletOrdering(m, nup), ""
 }
 
 func pageOrdering(nup *model.NUp, pages []int, n int) (bp []model.BookletPage, panicked string) {
@@ -275,22 +368,27 @@ func bookletOrderings(r *vh.Run) {
 					if folio == 0 {
 						c.folio = 8
 					}
-					oneOrdering(r, c, selPages(r, k, (k+folio+ti)%3))
+					pages, desel := selMap(r, k, k+folio+ti)
+					oneOrdering(r, c, pages, desel)
 				}
 			}
 		}
 	}
 }
 
-func oneOrdering(r *vh.Run, c cfg, pages []int) {
+func oneOrdering(r *vh.Run, c cfg, pages, desel []int) {
 	nup := c.nup()
-	bp, pan := ordering(pages, nup)
+	m := fullSet(pages, desel)
+	bp, pan := ordering(m, nup)
 	impl := "panic"
 	if pan == "" {
 		impl = fmtBP(bp)
 	}
-	r.Case("ordering", []string{vh.Int(int64(nup.N())), vh.Int(int64(nup.BookletType)), vh.Int(int64(nup.BookletBinding)),
-		vh.Bool(nup.PageDim.Landscape()), vh.Bool(nup.IsTopFoldBinding()), vh.Bool(nup.MultiFolio), vh.Int(int64(nup.FolioSize)), vh.Ints(pages)}, impl)
+	r.Case("orderingmap", []string{vh.Int(int64(nup.N())), vh.Int(int64(nup.BookletType)), vh.Int(int64(nup.BookletBinding)),
+		vh.Bool(nup.PageDim.Landscape()), vh.Bool(nup.IsTopFoldBinding()), vh.Bool(nup.MultiFolio), vh.Int(int64(nup.FolioSize)), mapArg(m)}, impl)
+	if len(desel) > 0 {
+		r.Count("class:selection-with-deselected-entries")
+	}
 	if c.multifolio {
 		r.Count(fmt.Sprintf("class:booklet-multifolio-N%d", c.n))
 	} else {
@@ -311,8 +409,18 @@ func oneOrdering(r *vh.Run, c cfg, pages []int) {
 	for i, b := range bp {
 		slots[i] = b.Number
 	}
+	for _, s := range slots {
+		if v, ok := m[s]; ok && !v {
+			inp := c.input(pages)
+			inp["deselected"] = summarize(desel)
+			r.OracleFail("deselected-page-placed", inp, fmt.Sprintf("page %d is in the selection map with value false and is placed in a slot", s))
+			return
+		}
+	}
 	if msg := checkPlacement(slots, pages, 2*c.n); msg != "" {
-		r.OracleFail(class, c.input(pages), msg)
+		inp := c.input(pages)
+		inp["deselected"] = summarize(desel)
+		r.OracleFail(class, inp, msg)
 		return
 	}
 	r.OracleOK()
@@ -352,6 +460,23 @@ func pageOrderingsOffGrid(r *vh.Run) {
 }
 
 func smallFunctions(r *vh.Run) {
+	for k := 0; k < r.Pick(40, 120); k++ {
+		for mode := 0; mode < 5; mode++ {
+			if k == 0 && (mode == 2 || mode == 3) {
+				continue
+			}
+			pages, desel := selMap(r, k, mode)
+			m := fullSet(pages, desel)
+			got := pdfcpu.VerifC34SortSelectedPages(m)
+			r.Case("sortsel", []string{mapArg(m)}, vh.Ints(got))
+			if fmt.Sprint(got) != fmt.Sprint(pages) && !(len(got) == 0 && len(pages) == 0) {
+				r.OracleFail("selection-sorted-list", map[string]any{"selected": summarize(pages), "deselected": summarize(desel)},
+					"sortSelectedPages returns "+summarize(got))
+			} else {
+				r.OracleOK()
+			}
+		}
+	}
 	for pos := 0; pos < 40; pos++ {
 		for _, l := range []bool{false, true} {
 			r.Case("get4upPos", []string{vh.Int(int64(pos)), vh.Bool(l)}, vh.Int(int64(pdfcpu.VerifC34Get4upPos(pos, l))))
